@@ -1,6 +1,6 @@
 (* C26 — proofs. *)
-From Coq Require Import ZArith NArith List Bool Lia.
-From PV Require Import C26.Generated C26.Spec C26.Model.
+From Coq Require Import ZArith NArith List Bool Lia String.
+From PV Require Import C26.Generated C26.Spec C26.Model C26.Audit.
 Import ListNotations.
 Open Scope Z_scope.
 
@@ -329,3 +329,85 @@ Qed.
 Lemma remark_iso_bit5_not_consulted_for_rev3 : exists P,
   has_bit P bit_extract = false /\ userOnlyAccess CM_EXTRACTIMAGES P 4 = Proceed.
 Proof. exists 512. split; vm_compute; reflexivity. Qed.
+
+(* ------------------------------------------------------------------ entry points -> command mode *)
+
+(* the tables regenerated from pkg/api and pkg/cli are the audited ones (closed terms: by computation) *)
+Lemma api_modes_audited :
+  api_entry_modes = map (fun x : string * (kind * list Z) => (fst x, snd (snd x))) audited_api.
+Proof. vm_compute. reflexivity. Qed.
+
+Lemma api_entry_mode_lists_ok : api_entry_mode_lists = map snd api_entry_modes.
+Proof. vm_compute. reflexivity. Qed.
+
+Lemma cli_modes_audited :
+  cli_command_modes = audited_cli_commands /\ cli_dispatch = audited_cli_dispatch.
+Proof. split; vm_compute; reflexivity. Qed.
+
+Definition kind_eqb (a b : kind) : bool :=
+  match a, b with
+  | KFree, KFree | KExtract, KExtract | KModify, KModify | KEither, KEither | KRow, KRow => true
+  | _, _ => false
+  end.
+
+Lemma kind_eqb_eq : forall a b, kind_eqb a b = true -> a = b.
+Proof. intros a b; destruct a, b; simpl; intros H; try reflexivity; discriminate. Qed.
+
+Fixpoint zlist_eqb (a b : list Z) : bool :=
+  match a, b with
+  | [], [] => true
+  | x :: a', y :: b' => (x =? y) && zlist_eqb a' b'
+  | _, _ => false
+  end.
+
+Lemma zlist_eqb_eq : forall a b, zlist_eqb a b = true -> a = b.
+Proof.
+  induction a as [|x a IH]; destruct b as [|y b]; simpl; intros H; try reflexivity; try discriminate.
+  apply andb_true_iff in H. destruct H as [Hx Hl]. apply Z.eqb_eq in Hx. subst. f_equal. apply IH. exact Hl.
+Qed.
+
+(* per audited pkg/api entry point: every mode is a CommandMode constant of the source, the kind judged from the
+   entry point's name equals the kind Spec.v gives the mode, and the mode's row in the permission table
+   satisfies that kind (or the mode is refused on every encrypted file / is one of the known gaps) *)
+Definition api_entry_ok (x : string * (kind * list Z)) : bool :=
+  let k := fst (snd x) in
+  negb (match snd (snd x) with [] => true | _ => false end) &&
+  forallb (fun mode =>
+    listed all_modes mode && kind_eqb (spec_kind mode) k &&
+    (row_satisfies k (perm_lookup perm_table mode) || rejectsEncrypted mode || listed known_unclassified mode))
+    (snd (snd x)).
+
+Lemma audited_api_ok : forallb api_entry_ok audited_api = true.
+Proof. vm_compute. reflexivity. Qed.
+
+Lemma entry_point_kind : forall f k modes, In (f, (k, modes)) audited_api ->
+  forall mode, In mode modes ->
+  In mode all_modes /\ spec_kind mode = k /\
+  (row_satisfies k (perm_lookup perm_table mode) || rejectsEncrypted mode || listed known_unclassified mode) = true.
+Proof.
+  intros f k modes Hin mode Hm.
+  pose proof (proj1 (forallb_forall _ _) audited_api_ok _ Hin) as H.
+  unfold api_entry_ok in H. cbn [fst snd] in H. apply andb_true_iff in H. destruct H as [_ H].
+  pose proof (proj1 (forallb_forall _ _) H mode Hm) as Hx.
+  apply andb_true_iff in Hx. destruct Hx as [Hx Hrow]. apply andb_true_iff in Hx. destruct Hx as [Hall Hk].
+  split; [apply listed_In; exact Hall|]. split; [apply kind_eqb_eq; exact Hk | exact Hrow].
+Qed.
+
+(* pkg/cli: a constructor gives the same constants to conf.Cmd and to Command.Mode (handlers that only set
+   conf.Cmd have no Mode), and every one of them is a CommandMode constant of the source *)
+Definition cli_entry_ok (x : string * (list Z * list Z)) : bool :=
+  let c := fst (snd x) in let m := snd (snd x) in
+  (match m with [] => true | _ => zlist_eqb c m end) &&
+  forallb (listed all_modes) c && forallb (listed all_modes) m.
+
+Lemma cli_commands_ok : forallb cli_entry_ok cli_command_modes = true.
+Proof. vm_compute. reflexivity. Qed.
+
+Lemma cli_cmd_is_mode : forall f c m, In (f, (c, m)) cli_command_modes -> m = [] \/ c = m.
+Proof.
+  intros f c m Hin.
+  pose proof (proj1 (forallb_forall _ _) cli_commands_ok _ Hin) as H.
+  unfold cli_entry_ok in H. cbn [fst snd] in H.
+  apply andb_true_iff in H. destruct H as [H _]. apply andb_true_iff in H. destruct H as [H _].
+  destruct m as [|x m']; [left; reflexivity|]. right. apply zlist_eqb_eq. exact H.
+Qed.
